@@ -151,7 +151,7 @@ func drawValue(t *rapid.T, st gen.SType, label string) float64 {
 	return float64(rapid.IntRange(-16, 16).Draw(t, label)) / 8
 }
 
-func checkVector(t *rapid.T, tr *tracked, hist []string, who string) {
+func checkVector(t *rapid.T, tr *tracked, hist []string, who string, deep bool) {
 	fail := func(format string, args ...interface{}) {
 		t.Fatalf("%s: %s\nhistory: %s", who, fmt.Sprintf(format, args...), strings.Join(hist, " ; "))
 	}
@@ -180,6 +180,11 @@ func checkVector(t *rapid.T, tr *tracked, hist []string, who string) {
 				fail("stored key %d is missing from the index %v (value map keys %v)", k, ik, mk)
 			}
 		}
+	}
+	if !deep {
+		// reads only: a full iteration would purge stored zeros and hide defects that depend on
+		// zero entries surviving until the next operation
+		return
 	}
 	// fresh iterator: exactly the non-zero positions ascending once each
 	var want, got []int
@@ -399,7 +404,7 @@ func vectorMachine(t *rapid.T, aspect string) {
 			note("slice", "v%d.Slice(%d,%d)", o, i, j)
 			var s Vector
 			must("Slice", func() { s = objs[o].v.Slice(i, j) })
-			checkVector(t, &tracked{s, append([]float64{}, objs[o].m[i:j]...)}, hist, "slice result")
+			checkVector(t, &tracked{s, append([]float64{}, objs[o].m[i:j]...)}, hist, "slice result", true)
 		},
 		"appendScalar": func(t *rapid.T) {
 			if len(objs) >= 3 {
@@ -555,11 +560,16 @@ func vectorMachine(t *rapid.T, aspect string) {
 			iters = append(iters, &liveIter{cl, iters[k].obj, iters[k].last})
 		},
 		"": func(t *rapid.T) {
+			// every step: all reads; one step in three additionally iterates (which purges zeros)
+			deep := rapid.IntRange(0, 2).Draw(t, "deepCheck") == 0
 			for i, tr := range objs {
-				checkVector(t, tr, hist, fmt.Sprintf("v%d", i))
+				checkVector(t, tr, hist, fmt.Sprintf("v%d", i), deep)
 			}
-			if zeroWritten {
-				zeroWriteThenIter = true
+			if deep {
+				hist = append(hist, "(iterate)")
+				if zeroWritten {
+					zeroWriteThenIter = true
+				}
 			}
 		},
 	}
@@ -586,7 +596,7 @@ type trackedM struct {
 	rows, cols int
 }
 
-func checkMatrix(t *rapid.T, tr *trackedM, hist []string) {
+func checkMatrix(t *rapid.T, tr *trackedM, hist []string, deep bool) {
 	fail := func(format string, args ...interface{}) {
 		t.Fatalf("%s\nhistory: %s", fmt.Sprintf(format, args...), strings.Join(hist, " ; "))
 	}
@@ -604,6 +614,9 @@ func checkMatrix(t *rapid.T, tr *trackedM, hist []string) {
 				fail("element (%d,%d): Float64At=%v ConstAt=%v, model %v; model=%v", i, j, f, cv, tr.g[i][j], tr.g)
 			}
 		}
+	}
+	if !deep {
+		return
 	}
 	var want, got []string
 	for i := 0; i < r; i++ {
@@ -786,7 +799,20 @@ func TestC11_sparse_matrix_machine(t *testing.T) {
 					}
 				}
 			},
-			"": func(t *rapid.T) { checkMatrix(t, tr, hist) },
+			"": func(t *rapid.T) { checkMatrix(t, tr, hist, rapid.IntRange(0, 2).Draw(t, "deepCheck") == 0) },
 		})
 	})
+}
+
+// ---------------------------------------------------------------------------------------------
+// witnesses
+
+func TestKF_permute_index_rebuild(t *testing.T) {
+	v := NullSparseFloat64Vector(1)
+	p := call(func() {
+		v.Permute([]int{0})
+		s := v.Slice(0, 1)
+		_ = s.Float64At(0)
+	})
+	obs.KFStatus("C11/permute-index-lists-positions-without-a-value", p != "", p)
 }
